@@ -5,6 +5,7 @@ datetime.date (proleptic Gregorian) with the two documented anomalies
 (serial 0 = 1900-01-00, serial 60 = 1900-02-29)."""
 
 import datetime as dt
+import math
 
 from hypothesis import strategies as st
 
@@ -345,6 +346,26 @@ def check_out_of_range(ctx):
                             rec.fail(f'{func}:value:fraction-of-{what}', case,
                                      f'{func}{args} = {got!r}, {func}({n},{k})'
                                      f' = {want!r}')
+    # YEARFRAC around the fictitious leap day and with times of day: symmetric,
+    # never negative, the time of day does not count
+    for a in list(range(0, 64)) + [365, 366, 367, 425, 426, 44000]:
+        for b in (a, a + 1, a + 2, 59, 60, 61, a + 365, a + 366):
+            for basis in range(5):
+                check_yearfrac(ctx, a, b, basis)
+    for a, b in ((100.2, 100.7), (100.7, 100.2), (60.5, 61.25), (0.5, 400),
+                 (44000.9, 44000.1), (59.5, 60.5), (0.25, 0.75),
+                 (1.5, 366.25), (2958464.5, 2958465.9)):
+        for basis in range(5):
+            check_yearfrac(ctx, a, b, basis)
+            whole, e0 = ctx.call('=YEARFRAC(A1,B1,C1)', A1=math.floor(a),
+                                 B1=math.floor(b), C1=basis)
+            frac, e1 = ctx.call('=YEARFRAC(A1,B1,C1)', A1=a, B1=b, C1=basis)
+            if e0 is None and e1 is None and whole != frac:
+                rec.fail(f'YEARFRAC:time-of-day:basis{basis}',
+                         dict(kind='yearfrac', a=a, b=b, basis=basis),
+                         f'YEARFRAC({a},{b},{basis}) = {frac!r} but '
+                         f'YEARFRAC({math.floor(a)},{math.floor(b)},{basis})'
+                         f' = {whole!r}')
     for y, m, d in ((2000, 1, 1), (1900, 2, 28), (1999, 12, 31), (2024, 2, 29)):
         want = model_date(y, m, d)
         for dy, dm, dd in ((0.9, 0, 0), (0, 0.9, 0), (0, 0, 0.9), (0.5, 0.5, 0.5)):
